@@ -140,6 +140,7 @@ def platVertsAgree (bits : Array UInt32) (m : Platonic.Mesh) (tol : Rat) : Optio
 inside a ring the height and the normal's y are constant (bit-exact: the rotation copies y), and
 x²+z² is constant up to rounding. -/
 def ringsAgree (p : Parsed) (secs nPoints : Nat) (s : Int) : Option String := Id.run do
+  -- `s`: radial scale max(Sx, Sz)
   let n := secs + 1
   for j in [0:nPoints] do
     let v0 := p.mesh.verts[j * n]!
@@ -203,18 +204,23 @@ def handle (case impl : List String) : Verdict :=
       let v := v.withSpec (!p.finite) "non-finite" "a coordinate or normal component is NaN or infinite"
       let v := v.withSpec (!indicesValid m) "index-out-of-range" "a face index is not below the vertex count"
       if v.spec.isSome then v else
+      let ax := axisScales m
       let s := scaleOf m
+      let sr := max ax.1 ax.2.2
       let v := match (List.range nv).find? (fun i => !unitNormal m.verts[i]!.n) with
         | some i => v.withSpec true "normal-not-unit" s!"vertex {i}: | |n|² − 1 | > 2e-3"
         | none => v
-      let rep := representatives m s
-      let v := match wrongSide m rep s with
+      let rep := representatives m ax
+      let v := match wrongSide m rep with
         | some (k, i) => v.withSpec true "normal-wrong-side" s!"face {k}: normal of vertex {i} is not on the side of (b−a)×(c−a)"
         | none => v
-      let edges := directedEdges m rep s
+      let edges := directedEdges m rep
       let v := v.withSpec (!windingConsistent edges) "winding-inconsistent" "a directed edge is used by two faces"
-      let t := s / 1000
-      let v := match (List.range nv).find? (fun i => !onSurface ex.shape t i m.verts[i]!.p) with
+      -- tolerances relative to the solid's own size, never below a few ulps of the coordinates
+      let floor := s / 1048576
+      let t := max (ex.shape.size / 1000) floor
+      let ty := max (ax.2.1 / 1000) floor
+      let v := match (List.range nv).find? (fun i => !onSurface ex.shape t ty m.verts[i]!.p) with
         | some i => v.withSpec true "off-surface" s!"vertex {i} is not on the intended surface"
         | none => v
       let v := match ex.shape with
@@ -225,7 +231,7 @@ def handle (case impl : List String) : Verdict :=
           let v := v.withSpec (!watertight nv edges) "not-watertight" "after merging coincident vertices some edge is not shared by exactly two faces in opposite directions"
           let chi := eulerChar nv edges
           let v := v.withSpec (chi != ex.euler) "euler-characteristic" s!"V−E+F = {chi}, expected {ex.euler}"
-          v.withSpec (signedVolume6 m rep s ≤ 0) "inward-winding" "signed volume is not positive: faces wound clockwise seen from outside"
+          v.withSpec (signedVolume6 m rep ≤ 0) "inward-winding" "signed volume is not positive: faces wound clockwise seen from outside"
         else v
       let v := match ex.counts with
         | some (cv, cf) =>
@@ -242,7 +248,7 @@ def handle (case impl : List String) : Verdict :=
       if v.diff.isSome then v else
       match ex.rings, case with
       | some (secs, nPoints), _ =>
-        let v := match ringsAgree p secs nPoints s with
+        let v := match ringsAgree p secs nPoints sr with
           | some msg => v.withDiff true msg
           | none => v
         if Lathe.hasCaps nPoints (ex.tags.contains "capped") then
